@@ -36,7 +36,7 @@ def fmtcmd_stage(ck):
     n = vlib.tlc("FmtCmd", "FmtCmd_neg.cfg", workers=1, timeout=600)
     if n.violated != "AfterOneRunFailAgrees":
         raise vlib.InfraError("FmtCmd_neg (in-place run that does not write) was not rejected by AfterOneRunFailAgrees")
-    g = vlib.tlc("FmtCmd", "FmtCmd_gen.cfg", workers=1, timeout=600)
+    g = vlib.tlc("MCFmtCmd", "FmtCmd_gen.cfg", workers=1, timeout=600)
     ck.add_tlc(g, "FmtCmd_gen")
     edges = g.tagged("EDGE")
     if len(edges) < 1000:
@@ -51,6 +51,40 @@ def fmtcmd_stage(ck):
     ck.set("fmtcmd_runs", summ["runs"])
     ck.set("fmtcmd_exit_classes", summ["exits"])
     ck.set("fmtcmd_negative_config", "an in-place run that reports but does not write violates AfterOneRunFailAgrees")
+    if ck.tier == "thorough":
+        apalache_fmtcmd(ck)
+
+
+def apalache_fmtcmd(ck):
+    """Unbounded argument: IndInv is an inductive invariant of FmtCmd (any number of runs) and implies the checked invariants."""
+    import shutil, subprocess
+    wd = os.path.join(vlib.scratch(), "apalache-fmtcmd")
+    os.makedirs(wd, exist_ok=True)
+    for f in ("FmtCmd.tla", "FmtCmd_apalache.cfg"):
+        shutil.copy(os.path.join(vlib.SPEC, f), wd)
+    neg = open(os.path.join(wd, "FmtCmd_apalache.cfg")).read().replace("RunRewrites = TRUE", "RunRewrites = FALSE")
+    open(os.path.join(wd, "neg.cfg"), "w").write(neg)
+    obligations = [("initial states satisfy IndInv", "FmtCmd_apalache.cfg", "Init", "IndInv", 0, True),
+                   ("IndInv is inductive", "FmtCmd_apalache.cfg", "IndInit", "IndInv", 1, True),
+                   ("IndInv implies AfterOneRunFailAgrees and RewrittenAtMostOnce", "FmtCmd_apalache.cfg", "IndInit", "IndImplies", 0, True),
+                   ("defective design: IndInv is NOT inductive", "neg.cfg", "IndInit", "IndInv", 1, False)]
+    done = []
+    for what, cfg, init, inv, length, want_ok in obligations:
+        try:
+            p = subprocess.run(["apalache-mc", "check", "--config=" + cfg, "--next=NextUnbounded", "--init=" + init,
+                                "--inv=" + inv, "--length=%d" % length, "--out-dir=" + os.path.join(wd, "out"), "FmtCmd.tla"],
+                               cwd=wd, stdout=subprocess.PIPE, stderr=subprocess.STDOUT, timeout=600)
+        except subprocess.TimeoutExpired:
+            raise vlib.InfraError("apalache timeout: " + what)
+        out = p.stdout.decode(errors="replace")
+        ok = "The outcome is: NoError" in out
+        err = "The outcome is: Error" in out
+        if not ok and not err:
+            raise vlib.InfraError("apalache did not decide (%s): %s" % (what, out[-1500:]))
+        if ok != want_ok:
+            raise vlib.InfraError("apalache obligation failed in the model: " + what)
+        done.append(what)
+    ck.set("fmtcmd_apalache_obligations", done)
 
 
 def run(prop):
